@@ -92,6 +92,7 @@ def tu():
                     c, K, "".join(map(str, idx)), sig, K, d["id"], d["nout"], ", ".join(map(str, idx)), tys)
     for K in (1, 2):
         t += 'extern "C" void d08_D_num%d_0%s{ vd::RunDyn<%d, 2, 5, 3>::go(x,f,J,H,after); }\n' % (K, sig, K)
+        t += 'extern "C" void d08_D_sub%d_1%s{ vd::RunDynSub<%d, 2, 5, 3>::go(x,f,J,H,after); }\n' % (K, sig, K)
     return t
 
 
@@ -582,6 +583,8 @@ def run_subset(cfg, idx, K, tier="quick", seed=0):
             Js, Jf = M.colmajor(ps.out("J"), no, nxs), M.colmajor(pf.out("J"), no, nx)
             prs = [("f%d" % j, a, b) for j, (a, b) in enumerate(zip(ps.out("f"), pf.out("f")))]
             prs += [("J[%d,%d]" % (j, ci), Js[j, ci], Jf[j, c]) for ci, c in enumerate(cols) for j in range(no)]
+            if cfg == "D":       # the rvalue-held argument outside the subset keeps its contents
+                prs += [("after%d" % j, a, b) for j, (a, b) in enumerate(zip(ps.out("after"), vars_("x", nr)))]
             if K == 2:
                 Hs, Hf = M.colmajor(ps.out("H"), nxs, nxs * no), M.colmajor(pf.out("H"), nx, nx * no)
                 prs += [("H[%d,%d*nx+%d]" % (ri, j, ci), Hs[ri, j * nxs + ci], Hf[r_, j * nx + c]) for ri, r_ in enumerate(cols) for ci, c in enumerate(cols) for j in range(no)]
@@ -722,6 +725,8 @@ def tasks(tier, seed=0):
         for idx in subs:
             for K in (1, 2):
                 t.append(("c08", "run_subset", (cfg, idx, K), dict(tier=tier, seed=seed)))
+    for K in (1, 2):        # dynamic-size argument handed over as an rvalue, outside the subset
+        t.append(("c08", "run_subset", ("D", (1,), K), dict(tier=tier, seed=seed)))
     t.append(("c08", "run_standin", (), dict(tier=tier, seed=seed)))
     t.append(("c08", "run_purity", (), dict(tier=tier, seed=seed)))
     return t
